@@ -1,5 +1,6 @@
 import OutlineModel.Proofs.TunnelTime
 import OutlineModel.Proofs.TieTunnelTime
+import OutlineModel.Proofs.TieConnMetrics
 import OutlineModel.Model.Metrics
 import OutlineModel.Props.C19
 import OutlineModel.Gen.Wiring
@@ -146,5 +147,37 @@ example :
     (Tie.TunnelTime.codeRun (fun _ _ => (Gen.Code.IPInfo.zero, none)) (fun _ => [8, 8, 8, 8]) (fun _ => "") 
       Gen.Code.tunnelTimeMetrics.zero [.start k 10, .start k 12, .stop k 15, .stop k 17, .collect 20]).map
         (fun c => getOf (Tie.TunnelTime.perKeyOf c.eff) "a") = some 7 := by decide
+
+
+/-! ### The callers, about the code itself
+
+`Gen.Code.tcpConnMetrics.AddAuthenticated / AddClosed` and `Gen.Code.udpConnMetrics.RemoveNatEntry` are TRANSLATED from
+prometheus/metrics.go on every run; the collectors they call are shared objects, so their calls appear in the effect log of
+the connection object (`Tie.ConnMetrics.ttCalls` keeps those on the tunnel-time collector); `toIPKey` is a parameter. -/
+
+/-- **code_callers_pair_start_and_stop**: for every key id — the EMPTY one included — `AddAuthenticated(key)` followed by
+    `AddClosed` makes, on the tunnel-time collector, exactly one `startConnection` and one `stopConnection` of the same
+    (client IP, key) when the client address yields an IP key, and nothing otherwise; neither call panics -/
+theorem code_callers_pair_start_and_stop (toIPKey : GoRT.Opaque "net.Addr" → String → Gen.Code.IPKey × Option String)
+    (cm : Gen.Code.tcpConnMetrics) (key status : String) (data : Gen.Code.ProxyMetrics) (d : Int) :
+    ∃ cm1 cm2, Gen.Code.tcpConnMetrics.AddAuthenticated toIPKey cm key = some cm1 ∧
+      Gen.Code.tcpConnMetrics.AddClosed toIPKey cm1 status data d = some cm2 ∧
+      Tie.ConnMetrics.ttCalls cm2.eff = Tie.ConnMetrics.ttCalls cm.eff ++
+        (if (toIPKey cm.clientAddr key).2 = none
+         then [Tie.ConnMetrics.startEff (toIPKey cm.clientAddr key).1, Tie.ConnMetrics.stopEff (toIPKey cm.clientAddr key).1] else []) :=
+  Tie.ConnMetrics.auth_then_close_pairs toIPKey cm key status data d
+
+/-- **code_unauthenticated_contributes_nothing**: closing a connection that never authenticated makes no call on the
+    tunnel-time collector; a UDP association's removal stops exactly the tunnel its creation started -/
+theorem code_unauthenticated_contributes_nothing (toIPKey : GoRT.Opaque "net.Addr" → String → Gen.Code.IPKey × Option String)
+    (cm : Gen.Code.tcpConnMetrics) (um : Gen.Code.udpConnMetrics) (status : String) (data : Gen.Code.ProxyMetrics) (d : Int)
+    (h : cm.authenticated = false) :
+    (∃ cm', Gen.Code.tcpConnMetrics.AddClosed toIPKey cm status data d = some cm' ∧
+        Tie.ConnMetrics.ttCalls cm'.eff = Tie.ConnMetrics.ttCalls cm.eff) ∧
+    (∃ um', Gen.Code.udpConnMetrics.RemoveNatEntry toIPKey um = some um' ∧
+        Tie.ConnMetrics.ttCalls um'.eff = Tie.ConnMetrics.ttCalls um.eff ++
+          (if (toIPKey um.clientAddr um.accessKey).2 = none then [Tie.ConnMetrics.stopEff (toIPKey um.clientAddr um.accessKey).1] else [])) :=
+  ⟨Tie.ConnMetrics.unauthenticated_close_makes_no_tunnel_call toIPKey cm status data d h,
+   Tie.ConnMetrics.removeNatEntry_tt toIPKey um⟩
 
 end OutlineModel.Props.C17
